@@ -9,8 +9,14 @@ set_option maxRecDepth 100000
 theorem frozen : Gen.L7.lang = Pinned.L7.lang := rfl
 
 /-- 2048 NUL-free, space-free, non-empty words; each found at its own index by the library's search -/
-theorem check : tableCheck true Gen.L7.lang = true := by decide +kernel
+theorem check : tableCheck Gen.L7.lang = true := by decide +kernel
 
-theorem ok : TableOK true Gen.L7.lang := tableOK_of_check _ _ check
+/-- no two words share their first four accent-stripped letters (languages that allow abbreviation) -/
+theorem prefixOk : prefixCheck Gen.L7.lang = true := by decide +kernel
+
+/-- an empty token is not recognised -/
+theorem emptyTok : findWord Gen.L7.lang [] = none := by decide +kernel
+
+theorem ok : TableOK Gen.L7.lang := tableOK_of_check _ check
 
 end Polyseed.Tables.T7
